@@ -80,7 +80,7 @@ func plans(points []gspec.IntPoint, k int) []gspec.Plan {
 func TestCheck(t *testing.T) {
 	cfg := mon.Load(ID)
 	rep := mon.NewReporter(cfg, "fault_enumeration",
-		"generated specs (Pregel incl. cycles, graph-AllPredecessor, Workflow; nested graphs; state with pre/post handlers; nodes that return InterruptAndRerun on their first attempt and rebuild their input from state) × for each spec EVERY subset of <=2 (quick) / <=3 (thorough, capped at 400 per spec) interrupt points (each node of every nesting level, before or after) is configured, the run is driven to completion through a byte-only checkpoint store (copies on Set/Get) with an ignored input on every resume, alternating Invoke/Stream in the thorough tier. Oracle: differential against the uninterrupted run of the same spec and the reference interpreter: final output, multiset of (node path, input) executions over all calls (minus the aborted attempt of a self-interrupting node), multiset of state-handler invocations, per-state-object counter continuity (no roll-back, no loss), bounded number of resumes (no progress = violation), quiescence monitor for hangs. Non-trivial: a history with >=1 interrupt that executed bodies in >=2 calls; distinct = (spec, input, plan) digests. PLUS a typed sub-workload (the last 21 (quick) / 42 (thorough) cases of every shard, typed_test.go): graphs and workflows generated directly against the public API around seven foci (struct values behind field mappings, any->T edges checked at run time, nodes / nested graphs / self-interrupting nodes added WithInputKey, interface-typed outputs holding nil, schema.Message values with every optional part, stateful sibling graphs nested 4-6 deep, a mix) in parallel lanes that meet in a join (fan-in of maps, field mappings onto a map or a struct, control-only dependencies), so that values are parked in channels behind converting edges when the checkpoint is taken; every single interrupt point, sampled pairs and the self-interrupting nodes alone; all four Invoke/Stream combinations of interrupted call and first resume (further resumes cycle), sometimes entered through Collect/Transform; a state modifier on every resume. Oracle: the uninterrupted run of the same spec (value and stream form must agree): no call fails, same final output, same multiset of (node, input) executions; the state modifier is called with exactly the path of the graph owning the state it is handed. PLUS a span sub-workload (the next 9 (quick) / 21 (thorough) cases, spans_test.go): typed specs of every focus (preferring specs with nested graphs) run with caller-supplied callback handlers whose OnStart derives the context - one span per graph / workflow, in two of three modes also a value per node, in one mode a second handler designated to a nested graph by path; every body records what it finds in its context, every node-level OnStart handler what it finds; oracle: the multiset of (node, input, context) of the bodies and the set of (node, context) of the handlers equal those of the uninterrupted run with the same handlers (value and stream form must agree), whatever was restored from the checkpoint. PLUS the parked focus (the last 10 (quick) / 25 (thorough) cases, parked_test.go): workflows (top level or nested in a pregel / dag / workflow graph) in which any-typed values (of nodes, of map fields, of START) are written through data-only inputs checked at run time into the channels of nodes behind a one- or two-level branch (single / multi, value / stream condition) that mostly does not select them: a value that fails its edge is parked as a failure only a reader would meet; every single interrupt point, sampled pairs, all Invoke/Stream combinations. Oracle: the uninterrupted run (both forms): if no failing node is selected every history succeeds with the same output and executions; if one is selected (every fifth case) the uninterrupted run fails and every history has to end in an ordinary error as well.",
+		"generated specs (Pregel incl. cycles, graph-AllPredecessor, Workflow; nested graphs; state with pre/post handlers; nodes that return InterruptAndRerun on their first attempt and rebuild their input from state) × for each spec EVERY subset of <=2 (quick) / <=3 (thorough, capped at 400 per spec) interrupt points (each node of every nesting level, before or after) is configured, the run is driven to completion through a byte-only checkpoint store (copies on Set/Get) with an ignored input on every resume, alternating Invoke/Stream in the thorough tier. Oracle: differential against the uninterrupted run of the same spec and the reference interpreter: final output, multiset of (node path, input) executions over all calls (minus the aborted attempt of a self-interrupting node), multiset of state-handler invocations, per-state-object counter continuity (no roll-back, no loss), bounded number of resumes (no progress = violation), quiescence monitor for hangs. Non-trivial: a history with >=1 interrupt that executed bodies in >=2 calls; distinct = (spec, input, plan) digests. PLUS a typed sub-workload (the last 21 (quick) / 42 (thorough) cases of every shard, typed_test.go): graphs and workflows generated directly against the public API around seven foci (struct values behind field mappings, any->T edges checked at run time, nodes / nested graphs / self-interrupting nodes added WithInputKey, interface-typed outputs holding nil, schema.Message values with every optional part, stateful sibling graphs nested 4-6 deep, a mix) in parallel lanes that meet in a join (fan-in of maps, field mappings onto a map or a struct, control-only dependencies), so that values are parked in channels behind converting edges when the checkpoint is taken; every single interrupt point, sampled pairs and the self-interrupting nodes alone; all four Invoke/Stream combinations of interrupted call and first resume (further resumes cycle), sometimes entered through Collect/Transform; a state modifier on every resume. Oracle: the uninterrupted run of the same spec (value and stream form must agree): no call fails, same final output, same multiset of (node, input) executions; the state modifier is called with exactly the path of the graph owning the state it is handed. PLUS a span sub-workload (the next 9 (quick) / 21 (thorough) cases, spans_test.go): typed specs of every focus (preferring specs with nested graphs) run with caller-supplied callback handlers whose OnStart derives the context - one span per graph / workflow, in two of three modes also a value per node, in one mode a second handler designated to a nested graph by path; every body records what it finds in its context, every node-level OnStart handler what it finds; oracle: the multiset of (node, input, context) of the bodies and the set of (node, context) of the handlers equal those of the uninterrupted run with the same handlers (value and stream form must agree), whatever was restored from the checkpoint. PLUS the parked focus (the last 10 (quick) / 25 (thorough) cases, parked_test.go): workflows (top level or nested in a pregel / dag / workflow graph) in which any-typed values (of nodes, of map fields, of START) are written through data-only inputs checked at run time into the channels of nodes behind a one- or two-level branch (single / multi, value / stream condition) that mostly does not select them: a value that fails its edge is parked as a failure only a reader would meet; every single interrupt point, sampled pairs, all Invoke/Stream combinations. Oracle: the uninterrupted run (both forms): if no failing node is selected every history succeeds with the same output and executions; if one is selected (every fifth case) the uninterrupted run fails and every history has to end in an ordinary error as well. PLUS the rerun-deadend focus (the last 120 (quick) / 480 (thorough) cases, rerun_deadend_test.go): layered any-predecessor graphs over map[string]any (fan-out from START into 2-4 nodes, 1-4 layers, top level / nested graph nodes / wrapped in a chain) in which a random subset of nodes returns InterruptAndRerun on the first attempt (blind, or rebuilding the input from state) and every non-spine node draws its tail: no outgoing edge, multi-way branch (value / stream condition) selecting nothing, edges, branch selecting a subset; histories cycle through a generated list of Invoke / Stream forms until the run finishes. Oracle: the uninterrupted run of the same graph with the re-run requests switched off (both forms must agree): every call interrupts or finishes, same final output, same multiset of executed bodies.",
 		[]string{"the superstep budget is per call, so specs whose uninterrupted run ends in the step-limit error are skipped", "eager mode may reorder executions: multisets, not sequences, are compared"},
 		300)
 	defer func() {
@@ -102,9 +102,14 @@ func TestCheck(t *testing.T) {
 	rep.Require("typed_nontrivial_parked", 20)
 	rep.Require("parked_control_histories_failed_after_resume", 5)
 	nt, ns, np := typedCasesPerShard(cfg), spansCasesPerShard(cfg), parkedCasesPerShard(cfg)
-	rep.Cases(n+nt+ns+np, func(idx int64, rng *mon.Rand) {
+	// the cases behind the parked ones: re-run nodes that hand nothing on next to siblings that do (rerun_deadend_test.go)
+	nr := rerunDeadEndCasesPerShard(cfg)
+	rep.Require("rerun_deadend_histories_with_silent_rerun_next_to_sending_sibling", 20)
+	rep.Cases(n+nt+ns+np+nr, func(idx int64, rng *mon.Rand) {
 		which := "gspec"
 		switch {
+		case idx >= n+nt+ns+np:
+			which = "rerun-deadend"
 		case idx >= n+nt+ns:
 			which = "parked"
 		case idx >= n+nt:
@@ -113,9 +118,12 @@ func TestCheck(t *testing.T) {
 			which = "typed"
 		}
 		if only := os.Getenv("VERIF_TYPED_ONLY"); only != "" && only != "1" && only != which {
-			return // debugging aid: typed | spans | parked
+			return // debugging aid: typed | spans | parked | rerun-deadend
 		}
 		switch which {
+		case "rerun-deadend":
+			rerunDeadEndCase(ctx, rep, rng, cfg, idx-n-nt-ns-np)
+			return
 		case "parked":
 			parkedCase(ctx, rep, rng, cfg, idx-n-nt-ns)
 			return
